@@ -944,9 +944,24 @@ impl Element {
                     // if this is a SHORT-NAME element a whole lot of handling is needed in order to unbreak all the cross references
                     let mut prev_path = None;
                     if self.element_name() == ElementName::ShortName {
-                        // this SHORT-NAME element might be newly created, in which case there is no previous path
-                        if self.character_data().is_some() {
-                            if let Some(parent) = self.parent()? {
+                        if let Some(parent) = self.parent()? {
+                            // the new name must not collide with the path of a different element
+                            if let CharacterData::String(new_name) = &chardata {
+                                let prefix = match parent.named_parent()? {
+                                    Some(named_parent) => named_parent.path()?,
+                                    None => String::new(),
+                                };
+                                if let Some(existing) = model.get_element_by_path(&format!("{prefix}/{new_name}")) {
+                                    if existing != parent {
+                                        return Err(AutosarDataError::DuplicateItemName {
+                                            element: parent.element_name(),
+                                            item_name: new_name.clone(),
+                                        });
+                                    }
+                                }
+                            }
+                            // this SHORT-NAME element might be newly created, in which case there is no previous path
+                            if self.character_data().is_some() {
                                 prev_path = Some(parent.path()?);
                             }
                         }
